@@ -54,15 +54,20 @@ def len_atom_bits(a, ef=None):
     return None
 
 
-def per_width(w, fn, mode):
+def per_width(w, fn, mode, cfg=None):
     """{k: bytes} for k = 1..8: with the width measured by the function's byte-width loop pinned to k, either the amount added to the
     running size on one trip of that loop's enclosing loop (mode 'accumulate') or the value stored into the local width array
     (mode 'store').  None where it is not a single constant."""
     from .c12 import measured_values
     from ..ival import Intervals
     mvs = [m_ for m_ in measured_values(fn, w) if m_[1] is not None and m_[2].block.id in fn.loops()]
+    via_helper = len(mvs) == 1 and mvs[0][2].op == "call" and fn.mod.fn(mvs[0][2].get("callee") or "") is not None and fn.mod.fn(mvs[0][2]["callee"]).internal
+    if (len(mvs) != 1 or via_helper) and cfg is not None:
+        # the measurement (or the normalisation after it) may live in a file-local helper: look at the function with those inlined
+        m2, f2 = with_helpers_inlined(fn.mod, fn, cfg)
+        if m2 is not None: return per_width(World(m2), f2, mode, None)
     if len(mvs) != 1: raise AnalysisBroken("%s: expected one byte-width measurement, found %d" % (fn.name, len(mvs)))
-    wid = mvs[0][1]["v"]; names = [wid] + [a["v"] for a in mvs[0][3]]
+    wid = mvs[0][1]["v"]; names = [wid] + [a["v"] for a in (mvs[0][3] if len(mvs[0]) > 3 else [])]
     inner = mvs[0][2].block.id
     outer = [h for h, body in fn.loops().items() if inner in body and h != inner]
     if not outer: raise AnalysisBroken("%s: the width measurement is not inside a per-field loop" % fn.name)
@@ -97,6 +102,7 @@ def per_width(w, fn, mode):
                     x = fn.imap[o["v"]]
                     if x.op == "phi": st += [c_["v"] for c_ in x["incoming"]]
                     elif x.op in ("zext", "sext", "trunc"): st.append(x.ops[0])
+                    elif x.op == "add": st += [x.ops[0], x.ops[1]]            # header size + payload size
                 return False
             for ph in fn.bmap[oh].insts:
                 if ph.op != "phi" or ph["t"].endswith("*") or not returned(ph.id): continue
@@ -162,7 +168,7 @@ def analyse(mod, run, label):
                               "%s adds %s, which does not correspond to any advance of %s: the predictor is documented as exact" % (pred, ", ".join(sorted(fmt_term(t) for t in unexp)), enc), loc="%s:%s" % (rel(pf.file), pf.line)))
     # group codec: for every raw byte width 1..8 the size predictor charges what the encoder keeps as the field's width
     # (both measure the value with the same width loop; the measured width is pinned to k and the code that normalises it is evaluated)
-    gs = per_width(w, need_fn(mod, "varintGroupSize"), "accumulate"); ge = per_width(w, need_fn(mod, "varintGroupEncode"), "store")
+    gs = per_width(w, need_fn(mod, "varintGroupSize"), "accumulate", label); ge = per_width(w, need_fn(mod, "varintGroupEncode"), "store", label)
     for k in range(1, 9):
         if gs[k] is None or ge[k] is None:
             run.defer_broken("Z1 group codec: the bytes charged / stored for a %d-byte value could not be evaluated (size: %s, encoder: %s)" % (k, gs[k], ge[k])); continue
